@@ -22,4 +22,5 @@ Definition src_tree : srcp :=
   {| loop_bound := 10; min_budget := 3; reset_guarded := true; direct_clears_again := true; direct_cancels_retry := true; direct_resets_upstream := true;
      put_resets_cursor := true; retry_checks_direct := true; retry_refinalizes := false;
      timers_reset_stream := true; hijack_clears_body := true; retry_clears_reuse := true;
-     setupretry_clears_reuse := false; global_lost_cas_stops := true; append_error_continues := true; reason_code := tree_reason_code |}.
+     setupretry_clears_reuse := false; global_lost_cas_stops := true; append_error_continues := true;
+     reset_excludes_global := true; reset_reads_status := false; res_counts_unlimited := true; reason_code := tree_reason_code |}.
